@@ -13,6 +13,10 @@ CHECKS = {
    technique='stateless exhaustive schedule exploration (all interleavings, happens-before state caching) of the real TTLCache/LRUCache under a cooperative scheduler + exhaustive op-history enumeration against a reference model',
    text='Every schedule (unbounded preemptions, TTL timer firing as an explorer action) of every 2-3 thread program combination over the cache alphabet, and every sequential history up to depth 6/7 against a reference refcount model; ghost state checks exactly-once finalisation, never-while-held, never-handed-out-after-finalise.',
    note='sequential consistency at sync operations; code between sync operations is data-race free (all cacheutil state is under the cache mutex); groupcache/lru uninstrumented; lock-dominance reduction (no switch while holding a lock, lock-order cycles reported as broken check)'),
+ 'C06': dict(level='model_checking', design='3/C06',
+   technique='explicit enumeration of read/cache histories x server-reply deviations on the real remote.Blob over an in-memory registry; stateless schedule exploration (preemption/deviation bounded, HB-state caching) of concurrent readers; exhaustive regionSet.add sequences vs a bitmap',
+   text='Every (size, chunk, prefetch-chunk, cache) config x every ReadAt(off,len)/Cache/Check/Refresh history of depth<=2 x every assignment of a non-default server personality to <=1 (quick) / <=2 (thorough) requests; 2-3 concurrent readers/prefetchers/refreshers with cache-loss and server deviations under all schedules within the bound; oracle: returned bytes equal the blob or error, FetchedSize equals the union of committed chunks, never exceeds size, never decreases.',
+   note='lib/memreg replaces the network; sequential consistency at instrumented operations; watched unsynchronised fields httpFetcher.header/url; map iteration sorted'),
 }
 
 NOT_YET = 'check not built yet in this session (work in progress; see DESIGN.md section 3)'
